@@ -212,7 +212,7 @@ func (w *Wrapper) Copy() Resource {
 
 	// Attributes
 	for _, attr := range w.Attrs() {
-		nw.Set(attr.Name, w.Get(attr.Name))
+		nw.Set(attr.Name, copyValue(w.Get(attr.Name)))
 	}
 
 	// Relationships
@@ -220,11 +220,47 @@ func (w *Wrapper) Copy() Resource {
 		if rel.ToOne {
 			nw.Set(rel.FromName, w.Get(rel.FromName).(string))
 		} else {
-			nw.Set(rel.FromName, w.Get(rel.FromName).([]string))
+			nw.Set(rel.FromName, copyValue(w.Get(rel.FromName)).([]string))
 		}
 	}
 
 	return nw
+}
+
+// copyValue returns v, or a copy of it that shares no memory with v if it is a
+// byte string, a pointer to a byte string or a list of IDs.
+func copyValue(v any) any {
+	switch v2 := v.(type) {
+	case []byte:
+		if v2 == nil {
+			return v2
+		}
+
+		nv := make([]byte, len(v2))
+		copy(nv, v2)
+
+		return nv
+	case *[]byte:
+		if v2 == nil || *v2 == nil {
+			return v2
+		}
+
+		nv := make([]byte, len(*v2))
+		copy(nv, *v2)
+
+		return &nv
+	case []string:
+		if v2 == nil {
+			return v2
+		}
+
+		nv := make([]string, len(v2))
+		copy(nv, v2)
+
+		return nv
+	}
+
+	return v
 }
 
 // Meta returns the meta values of the resource.
